@@ -120,6 +120,14 @@ func (r *run) callStatic(fr *frame, st *State, callee *ssa.Function, args, bindi
 		r.assume("true", fmt.Sprintf("(< 0 %s)", e))
 		r.errNoSentinel(e)
 		return []Val{{Term: e, Sort: "Err", Type: sig.Results().At(0).Type()}}
+	case repoMod + "/fhirpath/system.callTryEqual":
+		return r.reflectDispatch(fr, st, "TryEqual", args[0], args[1], reach, pos, true)
+	case repoMod + "/fhirpath/system.callBinaryComparator":
+		name, ok := smtUnescape(args[0].Term)
+		if !ok {
+			r.unsupported("callBinaryComparator with a non-constant method name")
+		}
+		return r.reflectDispatch(fr, st, name, args[1], args[2], reach, pos, false)
 	case "errors.Is":
 		return []Val{{Term: fmt.Sprintf("(and (not (= %s 0)) (err_is %s %s))", args[0].Term, args[0].Term, args[1].Term), Sort: "Bool", Type: types.Typ[types.Bool]}}
 	}
@@ -638,4 +646,95 @@ func (r *run) dispatchCandidates(fr *frame, st *State, ct *Contract, fv Val, arg
 		out = append(out, r.mergeVals(edges, col, "cand"))
 	}
 	return out
+}
+
+// reflectDispatch partially evaluates the reflection in system/cmp.go
+// (reflect.TypeOf(lhs).MethodByName(name), Type.In, ConvertibleTo, Func.Call) per dynamic
+// type of lhs, using the method sets and the convertibility relation of go/types - the same
+// the compiler uses. The reflective call becomes a direct call of the named method. If a
+// method is added, removed or re-typed, the case split changes with it (DESIGN §3.2).
+//
+//   callTryEqual(lhs, rhs)        -> (result, has, found bool)
+//   callBinaryComparator(n,l,r)   -> (result any, found bool)
+func (r *run) reflectDispatch(fr *frame, st *State, name string, lhs, rhs Val, reach string, pos token.Pos, tryEq bool) []Val {
+	type caseRes struct {
+		guard string
+		res   []Val
+		st    *State
+	}
+	boolT := types.Typ[types.Bool]
+	bv := func(s string) Val { return Val{Term: s, Sort: "Bool", Type: boolT} }
+	var cases []caseRes
+	var guards []string
+	r.oblige(fr.name, "nil-deref", reach, fmt.Sprintf("(not ((_ is nil_any) %s))", lhs.Term), "reflect.TypeOf(lhs).MethodByName on a nil interface", pos)
+	for _, t := range r.eng.Sorts.universe {
+		ms := r.eng.Prog.MethodSets.MethodSet(t)
+		var sel *types.Selection
+		for i := 0; i < ms.Len(); i++ {
+			if ms.At(i).Obj().Name() == name && ms.At(i).Obj().Exported() {
+				sel = ms.At(i)
+			}
+		}
+		if sel == nil {
+			continue
+		}
+		m := r.eng.Prog.MethodValue(sel)
+		if m == nil || m.Signature.Params().Len() != 1 {
+			continue
+		}
+		if pk := FnPkg(m); pk == nil || !inRepo(pk.Pkg) {
+			continue
+		}
+		g := r.eng.Sorts.IsType(t, lhs.Term)
+		guards = append(guards, g)
+		cst := st.clone()
+		P := m.Signature.Params().At(0).Type()
+		recv := Val{Term: r.eng.Sorts.Unbox(t, lhs.Term), Sort: r.eng.Sorts.SortOf(t), Type: t}
+		_, pIsIface := P.Underlying().(*types.Interface)
+		var out []Val
+		if !pIsIface {
+			// the guard "arg1.ConvertibleTo(TypeOf(rhs))" can be true (early return) and the
+			// reflective call needs rhs assignable to P: outside what the code base has today
+			r.unsupported("reflective comparator %s.%s has a concrete parameter type", shortName(t), name)
+		}
+		// P is an interface: reflect's ConvertibleTo(P, concrete type) is false, the method is called
+		res := r.callStatic(fr, cst, m, []Val{recv, rhs}, nil, and(reach, g), pos, m.Signature)
+		if tryEq {
+			if len(res) != 2 {
+				r.unsupported("TryEqual of %s does not return (bool, bool)", shortName(t))
+			}
+			out = []Val{res[0], res[1], bv("true")}
+		} else {
+			if len(res) < 1 || res[0].Sort != "Bool" {
+				r.unsupported("%s of %s does not return bool first", name, shortName(t))
+			}
+			boxed, _ := r.eng.Sorts.Box(boolT, res[0].Term)
+			out = []Val{{Term: boxed, Sort: "Any"}, bv("true")}
+		}
+		cases = append(cases, caseRes{g, out, cst})
+	}
+	// no such method: found == false
+	other := not(or(guards...))
+	ost := st.clone()
+	if tryEq {
+		cases = append(cases, caseRes{other, []Val{bv("false"), bv("false"), bv("false")}, ost})
+	} else {
+		cases = append(cases, caseRes{other, []Val{{Term: "nil_any", Sort: "Any"}, bv("false")}, ost})
+	}
+	var edges []inEdge
+	for _, cs := range cases {
+		edges = append(edges, inEdge{cond: and(reach, cs.guard), st: cs.st})
+	}
+	ms, _ := r.mergeStates(edges)
+	*st = *ms.clone()
+	var outv []Val
+	for i := range cases[0].res {
+		var col []Val
+		for _, cs := range cases {
+			col = append(col, cs.res[i])
+		}
+		outv = append(outv, r.mergeVals(edges, col, "refl"))
+	}
+	r.assumed["reflection in system/cmp.go partially evaluated per dynamic type with go/types method sets (reflect.Value.Call = direct call)"] = true
+	return outv
 }
